@@ -243,6 +243,19 @@ def run(ck, tier):
         if not ck.violations:   # the self-test needs events the specification accepts
             _selftest(ck, work, cevs + wevs)
 
+        # extension (beyond C10): util.DeBruijn against its definition and the transcribed construction
+        r = vlib.tlc("Util", "DeBruijn", "DeBruijnMC.cfg", workers=2, timeout=600)
+        vlib.tlc_expect_ok(r, "DeBruijnMC")
+        ck.mc("DeBruijnMC (extension)", r, "the Lyndon-word construction yields a de Bruijn sequence for all k <= 4, n <= 4")
+        dbp = os.path.join(work, "debruijn.ndjson")
+        vlib.harness(["debruijn", "-max", 1100 if thorough else 300, "-out", dbp], cmd="vutil")
+        vd, r = vlib.validate("Util", "DeBruijnTrace", "DeBruijnTrace.cfg", dbp, timeout=3000)
+        ck.mc("trace:debruijn (extension)", r, "%d outputs of util.DeBruijn" % vd["events"])
+        ck.extra["extension_events"] = vd["events"]
+        ck.extra["extension_drift"] = len(vd["drift"])
+        if vd["drift"]:
+            vlib.log("  [note] extension (DeBruijn.tla): %d of %d outputs differ from the specification (drift, no verdict)"
+                     % (len(vd["drift"]), vd["events"]))
         ck.nontrivial = len(judge.keys)
         ck.extra["emitted_cases_total"] = total
         ck.extra["emitted_cases_replayed"] = len(cevs)
